@@ -452,6 +452,48 @@ def sqrt_scalar_stream(rep, rng, count):
                               {"oracle": "O_sqrt_scalar", "circuit": repr(circuit), "point": repr(vals)})
 
 
+def grad_then_subs_stream(rep, rng, count):
+    """Oracle-only stream on the real objects: differentiating and substituting another symbol
+    commute - `c.grad(x).subs(y, v)` evaluates to what `c.subs(y, v).grad(x)` evaluates to, for
+    the default (parameter-shift) gradient and for the pure one (the substitution keeps every
+    flag of the gradient's scalars and boxes)."""
+    import numpy
+    from discopy.quantum import gates as G
+    from discopy.quantum.circuit import Measure
+    x, y = sympy.symbols("x y", real=True)
+    bad = 0
+
+    def num(arr, vals):
+        return numpy.array([complex(sympy.sympify(e).subs(vals)) for e in numpy.array(arr).flatten()])
+    for k in range(count):
+        mixed = bool(k % 2)
+        v = rng.choice([0.25, 0.5, 0.125])
+        xv = rng.uniform(0.1, 0.9)
+        # every phase keeps the symbol x after y is substituted (a phase that becomes a closed sympy
+        # number cannot be evaluated at all: known finding F11a of C14)
+        c = G.Ket(0) >> G.Rx(rng.choice([x, x + y, 2 * x])) >> G.Rz(rng.choice([x * y, x + y])) >> G.Rx(rng.choice([x + 2 * y, x]))
+        c = c >> (Measure() if mixed else G.Bra(rng.randint(0, 1)))
+        rep.count("stream:grad-then-subs")
+        what = None
+        try:
+            a = c.grad(x, mixed=mixed).subs(y, v).eval(mixed=mixed) if mixed else c.grad(x, mixed=False).subs(y, v).eval()
+            b = c.subs(y, v).grad(x, mixed=mixed).eval(mixed=mixed) if mixed else c.subs(y, v).grad(x, mixed=False).eval()
+            ga = numpy.zeros(1) if isinstance(a, (int, float)) else num(a.array, {x: xv})
+            gb = numpy.zeros(1) if isinstance(b, (int, float)) else num(b.array, {x: xv})
+            if ga.shape != gb.shape or not numpy.allclose(ga, gb, atol=1e-7):
+                what = "c.grad(x%s).subs(y, %r) evaluates to %r at x = %.3f, c.subs(y, %r).grad(x) to %r" % (
+                    "" if mixed else ", mixed=False", v, list(numpy.round(ga, 5)), xv, v, list(numpy.round(gb, 5)))
+        except Exception as exc:   # noqa
+            what = "grad then subs raised %s: %s" % (type(exc).__name__, exc)
+        if what:
+            bad += 1
+            rep.count("oracle:O_grad_subs:FAIL")
+            if bad <= 3:
+                rep.violation("O_grad_subs: " + what, {"oracle": "O_grad_subs", "circuit": repr(c)})
+        else:
+            rep.count("oracle:O_grad_subs:pass")
+
+
 def sum_gradient_stream(rep, rng, count):
     """Oracle-only stream on the real objects: pure gradients (mixed=False) of FORMAL SUMS of circuits
     and second-order pure gradients (the gradient of a gradient is the gradient of a sum).  Evaluating
@@ -745,6 +787,7 @@ def run(tier, seed):
 
     sqrt_scalar_stream(rep, rng, 40 if quick else 400)
     sum_gradient_stream(rep, rng, 30 if quick else 300)
+    grad_then_subs_stream(rep, rng, 20 if quick else 200)
     base.settle(rep, "C15", proof_ok, "C15")
     return rep.finish(
         rule="random parametrised circuits on <= 2 qubits (Rx Ry Rz, CU1 CRz CRx, pure / mixed scalars, "
